@@ -2720,6 +2720,9 @@ class SQLiteDialect(default.DefaultDialect):
                 r'(?:CONSTRAINT\s+(?:"(.+?)"|(\w+))\s+)?'
                 r"FOREIGN\s+KEY\s*\(\s*(.+?)\s*\)\s+"
                 r'REFERENCES\s+(?:(?:"(.+?)")|([a-z0-9_]+))\s*\(\s*((?:(?:"[^"]+"|[a-z0-9_]+)\s*(?:,\s*)?)+)\)\s*'  # noqa: E501
+                # MATCH is parsed and ignored by SQLite; it is rendered between
+                # the referred columns and the ON clauses
+                r"(?:MATCH\s+\w+\s*)?"
                 r"((?:ON\s+(?:DELETE|UPDATE)\s+"
                 r"(?:SET\s+NULL|SET\s+DEFAULT|CASCADE|RESTRICT|"
                 r"NO\s+ACTION)\s*)*)"
